@@ -302,9 +302,11 @@ func runC04(r *simkit.Run) {
 		panic(err)
 	}
 	s.exp = exp
-	if err := exp.Start(context.Background(), componenttest.NewNopHost()); err != nil {
+	sctx, started := simkit.StartContext(tp)
+	if err := exp.Start(sctx, componenttest.NewNopHost()); err != nil {
 		panic(err)
 	}
+	started()
 	for i := 0; i < cfg.Prods; i++ {
 		s.prods = append(s.prods, &c04Prod{id: i})
 	}
